@@ -40,8 +40,8 @@ def guarded(fn):
     """run the real code; map result/exception to the driver's reply syntax"""
     try:
         return fn()
-    except wire.Unencodable:
-        raise
+    except wire.Unencodable as e:
+        return "unencodable-result %r" % (e.args,)   # never equals a model reply: the tie disagrees on this case
     except Exception as e:  # noqa: BLE001 - exception kinds are part of the compared behaviour
         return wire.exc_kind(e)
 
@@ -75,6 +75,9 @@ SPECS = [dict(), dict(fg="red"), dict(bg="blue", bold=True), dict(fg=32, underli
 TEXTS = ["", "a", "ab", "hello", "x y", "a\nb", "\t", "Ｅ", "é", "abc def"]
 
 
+API_POOL_UNEXPECTED = []   # (op, exception, message) of exceptions other than ValueError/IndexError/AssertionError
+
+
 def api_pool(rng, steps=12, texts=TEXTS, observe=True):
     """-> (pool of real FmtStr objects, program log)"""
     from curtsies.formatstring import fmtstr as mk
@@ -89,9 +92,16 @@ def api_pool(rng, steps=12, texts=TEXTS, observe=True):
             {"str": lambda: str(f), "len": lambda: len(f), "s": lambda: f.s, "width": lambda: f.width, "none": lambda: None}[k]()
         except ValueError:
             pass
+        except Exception as e:  # noqa: BLE001
+            API_POOL_UNEXPECTED.append(("observe " + k, type(e).__name__, str(e)[:120]))
         log.append(("obs", k))
     for _ in range(3):
-        pool.append(mk(rng.choice(texts), **rng.choice(SPECS)))
+        try:
+            pool.append(mk(rng.choice(texts), **rng.choice(SPECS)))
+        except Exception as e:  # noqa: BLE001
+            API_POOL_UNEXPECTED.append(("fmtstr", type(e).__name__, str(e)[:120]))
+    if not pool:
+        return pool, log
     for _ in range(steps):
         obs()
         op = rng.choice(("add", "addstr", "raddstr", "mul", "slice", "join", "splice", "cwna", "rewrap", "append", "copy"))
@@ -123,7 +133,10 @@ def api_pool(rng, steps=12, texts=TEXTS, observe=True):
                 r = a.append(rng.choice([b, rng.choice(texts)]))
             else:
                 r = a.copy()
-        except (ValueError, IndexError, AssertionError):
+        except Exception as e:  # noqa: BLE001 - a public operation on valid operands raised: keep it visible
+            log.append(("raised", op, type(e).__name__))
+            if not isinstance(e, (ValueError, IndexError, AssertionError)):
+                API_POOL_UNEXPECTED.append((op, type(e).__name__, str(e)[:120]))
             continue
         log.append((op,))
         pool.append(r)
